@@ -21,7 +21,7 @@ def spec_c16_adapter(case, trace):
     registered with exactly the interest waited for; once the adapter is gone (dropped, into_inner, executor removed)
     the fd is not registered any more."""
     mode = case[1].split()[1]
-    if mode == "adaptfail":
+    if mode in ("adaptfail", "adaptclosed"):
         return None
     total = int(case[3].split()[1])
     for l in trace[2:]:
